@@ -442,6 +442,16 @@ def _gap_and_empty(ctx, w):
             continue
         if any(x['k'] == 'ref' and x['name'] == FLAG for x in f.walk(f.kid(n, 0))):
             empty = True
+    if not empty and getattr(f, 'static', False):
+        # the walk lives in a helper that hands the flag to its callers as its verdict:
+        # `return <flag>;` after the loop, and no caller discards the verdict
+        returned = any(n['k'] == 'ret' and n.get('c') and
+                       not any(a['k'] in ('for', 'while', 'do') for a in f.ancestors(n)) and
+                       any(x['k'] == 'ref' and x['name'] == FLAG for x in f.walk(f.kid(n, 0)))
+                       for n in f.all_nodes())
+        sites = [(g, c) for g in f.tu.fn_list for c in g.calls() if c.get('callee') == f.name]
+        if returned and sites and all(paths.value_holder(g, c)[0] != 'dropped' for g, c in sites):
+            empty = True
     ctx.ob('R14.2', f.name + ':no-block-is-undefined', empty, f.loc(w.D_decl),
            'after the walk the result depends on whether any block of the range was seen' if empty else
            'nothing tests %s after the walk: a range outside every block yields the '
